@@ -236,8 +236,9 @@ Proof. vm_compute. repeat split; reflexivity. Qed.
 (** Link between the proof side and the correspondence side: the oracle of Corr/C03.v is no
     stricter than the model.  For every well-formed case whose steps are in scope, if the model
     reproduces the observation ([corr_b]) then the oracle accepts it ([prop_b]).
-    PARTIAL — what is missing: steps that are CancelOrders commands (process or direct action) and
-    the degenerate environment op [OpSetLink _ SNoIndex] are outside [case_in_scope].  For a
+    PARTIAL — what is missing: steps that are CancelOrders commands (process or direct action),
+    strategy-hook steps [OpHook] (judged by the oracle like direct actions; proof not done) and the
+    degenerate environment op [OpSetLink _ SNoIndex] are outside [case_in_scope].  For a
     CancelOrders command the code iterates a hash map, so [corr_b] compares report and mailboxes as
     multisets, while the oracle additionally demands that each mailbox holds the reported requests
     in the reported order: a relation between two observed values that multiset agreement with
